@@ -15,6 +15,7 @@ def run(c):
     c.tlc_mc("MplexFraming", "MCMplexFraming.cfg")
     c.tlc_mc("MplexFraming", "MCMplexFraming_canary.cfg", expect="RejectBeforeBuffering")
     if not c.quick:
+        c.tlc_mc("MplexFraming", "MCMplexFraming_full.cfg", timeout=1500)
         c.tlc_mc("MplexFraming", "MCMplexFraming3.cfg", timeout=1500)
     # (R)
     drv = c.build("drv-mux")
